@@ -55,6 +55,12 @@ def gen_case(seed, n, tier="quick"):
     c["resp_len"] = r.choice([0, 10, 5000])
     c["abort_snap"] = r.random() < 0.3          # abort exactly at a chunk boundary (after a chunk's CRLF)
     c["early_reply"] = r.random() < 0.1         # origin sends a final 403 + Connection: close before reading the body
+    # a large chunked upload into an origin that starts reading late through a small receive buffer: squid's 64 KB
+    # request body pipe fills while more chunk data is already buffered (back-pressure path of the dechunker)
+    c["bigslow"] = (n % 83 == 7)
+    if c["bigslow"]:
+        c.update(framing="chunked", len=6 * 1024 * 1024 + r.randrange(0, 5000), chunks=[r.choice([65536, 100000, 1 << 20, 4097]) for _ in range(4)],
+                 expect=False, abort=False, early_reply=False, nsplits=0, delay=0, pause_at=None, trailers=[], exts=["", "", "", ""])
     return c
 
 
@@ -153,6 +159,14 @@ def run(a, res):
         c = table.get(path)
         if c and c["early_reply"]:
             return b"HTTP/1.1 403 Forbidden\r\nDate: " + lab_date() + b"\r\nX-Verif-Rid: early\r\nConnection: close\r\nContent-Length: 5\r\n\r\nearly"
+        if c and c.get("bigslow"):
+            import socket as _s
+            try:
+                req.sock.setsockopt(_s.SOL_SOCKET, _s.SO_RCVBUF, 8192)
+            except OSError:
+                pass
+            time.sleep(2.5)
+            res.count("bigslow_uploads")
         exp = httpref.get(req.headers, "Expect")
         if c and exp and exp.lower() == "100-continue" and c["origin_sends_100"]:
             return b"HTTP/1.1 100 Continue\r\n\r\n"
